@@ -68,7 +68,7 @@ def gen_workload(tape, spec, pil):
                 nxt = [vals[-1] * 0.9 if vals[-1] > 0 else vals[-1]]
                 nxt = [vals[-1]]
             else:
-                nxt = [tape.choice('q2', [0.5, 0.7])]
+                nxt = [tape.choice('q2', [0.5, 0.7, 1.0])]
             wl['second'] = (wl['n_samples'], {key: nxt})
         if 'second' in wl and tape.chance('manual_middle', 1, 2):
             wl['manual_middle'] = True
